@@ -1,4 +1,5 @@
 import Tftp.Driver.Util
+import Tftp.Driver.Worker
 open Tftp Tftp.Driver
 
 def dispatch (line : String) : String :=
@@ -7,6 +8,9 @@ def dispatch (line : String) : String :=
   | [] => ""
   | cmd :: _ =>
     if cmd ∈ ["dec", "enc", "opc", "erc", "optname", "utf8", "pusize", "todec"] then codecLine toks
+    else if cmd = "win" then winLine toks
+    else if cmd = "snd" then sndLine toks
+    else if cmd = "rcv" then rcvLine toks
     else "bad-op"
 
 partial def loop (hin : IO.FS.Stream) (hout : IO.FS.Stream) : IO Unit := do
